@@ -434,6 +434,36 @@ def finish(prop, tier, seed, results, listing_errors, t0, quiet, repo, canaries=
         for c in canary_results:
             if c["status"] == "missed":
                 errors.append(f"must-fail canary {c['seed']} (a seeded change that breaks {prop}) was NOT detected: the check has become too weak")
+    # refuted clauses whose counter-model did not fail natively (typically counter-examples to induction at a loop cut, which are
+    # not reachable states): look for a genuine failing input with the bounded native search
+    unconfirmed = [(ident, rp) for ident, rp, confirmed in violations if not confirmed]
+    if unconfirmed and not os.environ.get("PYVC_NO_CROSSCHECK"):
+        by_harness = {}
+        for ident, rp in unconfirmed:
+            for r in results:
+                if ident.startswith(r["name"] + "/"):
+                    by_harness.setdefault((r["module"], r["name"]), []).append((ident, rp, ident[len(r["name"]) + 1:]))
+        reqs = [{"module": m, "name": n, "count": 4000, "seed": seed, "budget_s": 12} for (m, n) in by_harness]
+        try:
+            p = subprocess.run([NATIVE_PY, os.path.join(VERIF, "helper", "native.py"), "fuzz", "--repo", repo],
+                               input="\n".join(json.dumps(q) for q in reqs) + "\n", capture_output=True, text=True,
+                               env=dict(os.environ, PYVC_REPO=repo), timeout=len(reqs) * 20 + 120)
+            outs = [json.loads(l) for l in p.stdout.splitlines() if l.strip().startswith("{")]
+        except Exception:  # noqa
+            outs = []
+        for q, o in zip(reqs, outs):
+            hits = dict(o.get("failed") or {})
+            if o.get("escaped"):
+                hits.setdefault("no-escape", o["escaped"].get("args"))
+            for ident, rp, label in by_harness[(q["module"], q["name"])]:
+                if label in hits:
+                    doc = json.load(open(os.path.join(VERIF, rp)))
+                    doc.update({"confirmed_on_real_code": True, "inputs_repr": hits[label], "fuzz": {"seed": q["seed"], "count": q["count"]},
+                                "found_by": "bounded native search, after the solver's counter-model (kept as solver_model) did not fail natively"})
+                    doc.pop("note", None)
+                    json.dump(doc, open(os.path.join(VERIF, rp), "w"), indent=1, default=str)
+                    violations = [(i, r_, True if i == ident else c) for i, r_, c in violations]
+
     # harnesses the deductive engine could not decide (construct outside the modelled subset, time-out): bounded native search for
     # an input on which a clause of that harness fails on the real code.  A hit is a violation with a native witness; no hit leaves
     # the harness undecided (never "held").
